@@ -218,6 +218,8 @@ def rebinding(fn):
             q.env[recv_ast.id] = x.c.lift_local(old.sort, new) if old is not None and old.sort.startswith('opt:') else new
         elif isinstance(recv_ast, ast.Attribute) and isinstance(recv_ast.value, ast.Name) and q.env[recv_ast.value.id].sort == 'rec':
             rec = q.env[recv_ast.value.id]; q.env[recv_ast.value.id] = Val('rec', x=dict(rec.x, **{recv_ast.attr: new}))
+            if isinstance(rec.x.get('_param'), str):
+                x.oblige(f'frame: the argument `{rec.x["_param"]}` is not modified (in-place `{ast.unparse(e)[:60]}`)', q.pc, z3.BoolVal(False), q.exact, 'frame')
         else: raise Unsupported(site + ' mutation through ' + ast.unparse(recv_ast))
         yield q, NONE
     return h
